@@ -288,6 +288,25 @@ func (d *Ledger) ActAdversarial() {
 	if fn == "MultiESDTNFTTransfer" && len(c.Args) > 1 && len(c.Args[1]) >= 8 && d.chance(70) {
 		c.Gas = ^uint64(0) // a wrapped count also wraps count*cost: give the path past the gas guard a chance
 	}
+	if (fn == "MultiESDTNFTTransfer" || fn == "ESDTNFTTransfer" || fn == "ESDTTransfer") && !plain && !wrapped && d.chance(15) {
+		// the DESTINATION side of a transfer function on arbitrary message arguments: the sender lives on another shard (no sender
+		// account on the executing shard), the recipient is local; counts of zero, counts the arguments cannot hold, too few arguments
+		rn := d.anyAcct()
+		for i := 0; i < 20 && (d.shardOfName(rn) == d.shardOfName(caller) || d.W.Info(rn).Kind == "junk"); i++ {
+			rn = d.anyAcct()
+		}
+		if d.shardOfName(rn) != d.shardOfName(caller) && d.W.Info(rn).Kind != "junk" {
+			c.Rcpt = d.W.Addr(rn)
+			if fn == "MultiESDTNFTTransfer" && len(c.Args) > 0 && d.chance(70) {
+				c.Args = c.Args[1:] // destination-side layout: count first
+				if d.chance(40) {
+					c.Args = append([][]byte{d.advCount()}, c.Args...)
+				}
+			}
+			d.record("exec", d.shardOfName(rn), c)
+			return
+		}
+	}
 	d.record("exec", d.shardOfName(caller), c)
 }
 
